@@ -24,13 +24,9 @@ CLAIMS = {
  "C05": ("Lean theorems C05_read_spec / C05_write_spec (the BTreeMap model's read and write are the specified little-endian rdLE/wrLE over addresses modulo 2^64), wrLE_hit / wrLE_other / C05_read_after_write / C05_last_write_wins / C05_untouched (every byte is the most recent earlier write to its address, else the image; wrap-around included), C05_read_port / C05_instruction_port / C05_write_port (enable semantics of the ports). Reads see start-of-cycle memory by C01_settlement; the write is among the final actions (validated per schedule). C04_C05_accepted_effect composes them for every accepted program: after any completed cycle, memory is the start-of-cycle memory with the 8-byte little-endian store applied iff the write port is wired and mem_writebit is non-zero in the settled valuation; reads (value-writing actions) see the start-of-cycle memory by C01_accepted.",
          '',
          'Lean 4 proof (function-update reasoning, induction over histories) + differential oracle'),
- "C06": ("Lean theorems C06_terminates (the run loop never exhausts the fuel timeout+1-cycle: run() terminates within timeout "
-         "cycles), C06_stop (it returns after exactly k cycles where the k-th state is the first that is done: status outside "
-         "{AOK,BUB} or budget used), C06_within_timeout (cycle count <= timeout; 0 cycles for timeout 0), C06_report (banner and "
-         "Cycles run/Error code lines as a function of status, cycle and timeout). The real run() and final dump are compared "
-         "with model and specification on Stat sequences hitting every 3-bit value at every position and all timeouts 0..14.",
-         "The text of the banner lines is compared through the harness (kind, counts, code number), rendering itself is C16.",
-         "Lean 4 proof (induction over fuel/cycles) + differential oracle"),
+ "C06": ('Lean theorems C06_terminates (the run loop never exhausts the fuel timeout+1-cycle: run() terminates within timeout cycles), C06_stop (it returns after exactly k cycles where the k-th state is the first that is done: status outside {AOK,BUB} or budget used), C06_within_timeout (cycle count <= timeout; 0 cycles for timeout 0), C06_report (banner and Cycles run/Error code lines as a function of status, cycle and timeout). The real run() and final dump are compared with model and specification on Stat sequences hitting every 3-bit value at every position and all timeouts 0..14. C06_accepted: for every accepted statement list, flag set, iteration order, memory image and timeout, the run loop started from the initial state ends within timeout+1 turns, either in a done state after at most timeout cycles or with an explicit DivideByZero report; no other failure is possible.',
+         'The text of the banner lines is compared through the harness (kind, counts, code number), rendering itself is C16.',
+         'Lean 4 proof (induction over fuel/cycles) + differential oracle'),
  "C07": ("Lean theorem C07_accepted, with no hypothesis about the schedule: for every statement list whose constants fit their widths "
          "and whose declared widths are at most 128, every flag set, every Unicode classification of bank letters and every "
          "iteration order of the hash tables (any permutation), if the model of Program::new accepts, then Program::initial_state "
@@ -53,22 +49,12 @@ CLAIMS = {
          "Program-level acceptance (which expression is checked against which target; constants and defaults) is modelled in "
          "Program.new and compared differentially with Spec.faults; the parser bounds (128) come through the translator tie.",
          "Lean 4 proof (mutual induction, scan invariants) + differential oracle on mutated programs"),
- "C09": ("Lean theorems about the model of Program::new's first stage (C09_stage1_rejects, step1_errors_mono, "
-         "step1Name_double): every fault recorded by the stage (double declaration, double assignment, assignment to a "
-         "built-in output or constant, constant reading a wire/undeclared name) makes Program.new return an error for every "
-         "iteration order, and errors are never dropped. The full fault list of the statement is Spec.faults; fault injection "
-         "of every class at every kind of name compares the real accept/reject and the (kind, name) multiset with the model, "
-         "the verdict with Spec.faults, and requires the injected name in the diagnostics.",
-         "Later stages (banks, unset wires, partial components) are covered by the model correspondence and Spec.faults oracle, not yet by theorems.",
-         "Lean 4 proof (fold monotonicity) + exhaustive-by-class fault injection with differential oracle"),
- "C10": ("Lean theorems C10_cycle_iff, C10_sorter_spec, C10_never_panics, C10_reported_loop_is_real about a model of "
-         "Graph::topological_sort/find_cycle that takes the hash-iteration orders as explicit data: for every order the sorter "
-         "reports a cycle iff one exists, the reported cycle is real, a successful sort is a complete linear extension, and "
-         "the panic!/underflow sites are unreachable. Tied to the code by replaying the real sorter's logged iteration "
-         "orders (identical output required) on every digraph with <=4 nodes and random larger ones; program-level loop "
-         "injection (through components, banks, write ports, constants) is compared with the reachability-based specification.",
-         "Program-level edge construction is covered by the loop-injection stream and Spec.faults, not yet by a theorem.",
-         "Lean 4 proof (invariants over Kahn and DFS loops) + differential replay with logged hash orders"),
+ "C09": ("Lean theorems about the model of Program::new's first stage (C09_stage1_rejects, step1_errors_mono, step1Name_double): every fault recorded by the stage (double declaration, double assignment, assignment to a built-in output or constant, constant reading a wire/undeclared name) makes Program.new return an error for every iteration order, and errors are never dropped. The full fault list of the statement is Spec.faults; fault injection of every class at every kind of name compares the real accept/reject and the (kind, name) multiset with the model, the verdict with Spec.faults, and requires the injected name in the diagnostics. C09_accepted: in every accepted program, under every iteration order, the value-writing actions have pairwise distinct outputs, none drives a register output or a constant, every wire read is a register output, a constant or the output of an earlier action, and the state-changing actions write no wire.",
+         'Later stages (banks, unset wires, partial components) are covered by the model correspondence and Spec.faults oracle, not yet by theorems.',
+         'Lean 4 proof (fold monotonicity) + exhaustive-by-class fault injection with differential oracle'),
+ "C10": ("Lean theorems C10_cycle_iff, C10_sorter_spec, C10_never_panics, C10_reported_loop_is_real about a model of Graph::topological_sort/find_cycle that takes the hash-iteration orders as explicit data: for every order the sorter reports a cycle iff one exists, the reported cycle is real, a successful sort is a complete linear extension, and the panic!/underflow sites are unreachable. Tied to the code by replaying the real sorter's logged iteration orders (identical output required) on every digraph with <=4 nodes and random larger ones; program-level loop injection (through components, banks, write ports, constants) is compared with the reachability-based specification. C10_accepted_acyclic: the dependency graph of an accepted program's value-writing actions (u -> v when the definition or component driving v reads u) has no cycle, under every iteration order: a program with a combinational loop is never accepted; the sorter theorem is instantiated on the graphs the program builds (GBuild.sort_spec).",
+         'Program-level edge construction is covered by the loop-injection stream and Spec.faults, not yet by a theorem.',
+         'Lean 4 proof (invariants over Kahn and DFS loops) + differential replay with logged hash orders'),
  "C18": ("The real step_with_output is run under the empty, full and random subsets of the five output options and must leave "
          "every wire, register, memory byte and status identical to the option-free run (which is compared with model and "
          "specification); the model's simulation functions do not take options at all. The -d table printed by the real code "
